@@ -345,6 +345,10 @@ def fullRead (E : Bytes → Bytes → Bytes) (s : State) (file : Bytes) (start :
   | none => .error .keyError
   | some r =>
     let size : Int := if (offset : Int) + size > r.size then (r.size : Int) - offset else size
+    -- never more chunks than the file can hold: `available = file.seek(0, 2) - start`
+    let available : Int := (file.length : Int) - start
+    let size : Int := if (offset : Int) + size > available then available - offset else size
+    if size ≤ 0 then .ok [] else
     let before := offset % 0x200
     let alOffset := offset - before
     let alSize : Int := size + before
